@@ -416,7 +416,8 @@ def observe_written(spec):
     mesh.add(stack)
     # for every second spec (decided by the spec, so that replays agree) the operation is deleted from a mesh that is already
     # assembled, and the mesh is back-ported before it is written: the file still lacks exactly the addressed block
-    late = int(hashlib.sha1(json.dumps(spec, sort_keys=True, default=str).encode()).hexdigest()[:4], 16) % 2 == 0
+    life = int(hashlib.sha1(json.dumps(spec, sort_keys=True, default=str).encode()).hexdigest()[:4], 16) % 3
+    late = life == 0
     if late:
         with warnings.catch_warnings():
             warnings.simplefilter("ignore")
@@ -425,6 +426,12 @@ def observe_written(spec):
     if late:
         with warnings.catch_warnings():
             warnings.simplefilter("ignore")
+            mesh.backport()
+    elif life == 1:
+        # deleted first, then assembled TWICE (assemble; backport): the block stays away in every later assembly, too
+        with warnings.catch_warnings():
+            warnings.simplefilter("ignore")
+            mesh.assemble()
             mesh.backport()
     fd, path = tempfile.mkstemp(prefix="c19_", suffix=".blockMeshDict")
     os.close(fd)
